@@ -242,7 +242,11 @@ class _HamiltonianSystem(_DynamicalSystem):
             Compiled function implementing Hamilton's equations.
         """
 
-        jac_H, clmo_H, n_dof = self.jac_H, self.clmo_H, self.n_dof
+        # Numba cannot lower typed lists captured by a closure (they would have to
+        # become compile-time constants), so hand the same arrays over as tuples.
+        jac_H = tuple(tuple(block for block in var) for var in self.jac_H)
+        clmo_H = tuple(self.clmo_H)
+        n_dof = self.n_dof
 
         def _rhs_impl(t: float, state: np.ndarray) -> np.ndarray:
             # Autonomous: t is unused; required for interface consistency
